@@ -285,6 +285,18 @@ def m_fn_call(ex, st, callee, args, dest_ty):
     f = args[0]
     tup = args[1]
     argv = list(tup.fields) if isinstance(tup, Adt) else [tup]
+    m = re.match(r"^<&?(?:mut )?\{closure@([^}]*)\} as Fn", callee)
+    if m and m.group(1).strip() in ex.closure_by_span:
+        # the closure type names its body; a capture-less closure is a zero-sized value that MIR never initialises
+        b = ex.closure_by_span[m.group(1).strip()]
+        env = None
+        try:
+            env = deref(ex, st, f)
+        except MirUnsupported:
+            pass
+        caps = env.captures if isinstance(env, FnV) else ()
+        yield from call_fn_value(ex, st, FnV(b.name, caps, m.group(1).strip()), argv)
+        return
     yield from call_fn_value(ex, st, f, argv)
 
 
